@@ -123,6 +123,19 @@ def check_dekad(Dekad, raw, R, viol):
             R.count("last_end_date_returned")
         except (OverflowError, ValueError):  # year 10000 is outside datetime
             R.count("last_end_date_overflow")
+        for attr in ("ndays", "date_range", "end_date"):  # the derived bounds fail the same way; a failure changes nothing
+            try:
+                getattr(d, attr)
+            except (OverflowError, ValueError):
+                R.count("last_dekad_failed_calls")
+    # a Dekad is a value: no operation - successful or failed - changes the object it was called on
+    R.count("immutability_obs")
+    try:
+        now = (d.raw, str(d), hash(d), d.year, d.month, d.idx, d.start_date)
+    except Exception as e:  # noqa: BLE001
+        now = f"{type(e).__name__}: {e}"
+    if now != (raw, label, hash(Dekad(raw)), y, m, idx, dt.datetime(y, m, first)):
+        viol("C11:mutated", f"after reading its properties Dekad({raw}) is {now}, expected {(raw, label, y, m, idx)}", case)
     for n in OFFSETS:
         t = raw + n
         if not (MINRAW <= t <= MAXRAW):
